@@ -25,6 +25,118 @@ class AttrDefined(MustAnalysis):
 NO_IDENTITY = {"min", "max", "argmin", "argmax", "nanmin", "nanmax", "amin", "amax", "nanargmin", "nanargmax", "ptp"}
 
 
+def _empty_value(e, sel):
+    """Abstract value of expression e when every array in `sel` (names of labeled selections) is EMPTY:
+    returns ("num", v) / ("bool", b) / None (unknown)."""
+    if isinstance(e, ast.Constant) and isinstance(e.value, (int, float, bool)):
+        return ("bool", e.value) if isinstance(e.value, bool) else ("num", e.value)
+    if isinstance(e, ast.Call):
+        fn = (c01.callname(e) or "").split(".")[-1]
+        opnds = list(e.args[:1]) + ([e.func.value] if isinstance(e.func, ast.Attribute) and not (
+            isinstance(e.func.value, ast.Name) and e.func.value.id in ("np", "numpy")) else [])
+        touches = any(_is_sel(o, sel) for o in opnds)
+        if touches:
+            if fn in ("sum", "nansum", "count_nonzero", "len", "size"):
+                return ("num", 0)
+            if fn == "any":
+                return ("bool", False)
+            if fn == "all":
+                return ("bool", True)
+        return None
+    if isinstance(e, ast.Attribute) and e.attr == "size" and _is_sel(e.value, sel):
+        return ("num", 0)
+    if isinstance(e, ast.UnaryOp) and isinstance(e.op, ast.Not):
+        v = _empty_value(e.operand, sel)
+        if v is None:
+            return None
+        return ("bool", not bool(v[1]))
+    if isinstance(e, ast.BoolOp):
+        vals = [_empty_value(v, sel) for v in e.values]
+        if isinstance(e.op, ast.And):
+            if any(v is not None and not bool(v[1]) for v in vals):
+                return ("bool", False)
+            return ("bool", True) if all(v is not None for v in vals) else None
+        if any(v is not None and bool(v[1]) for v in vals):
+            return ("bool", True)
+        return ("bool", False) if all(v is not None for v in vals) else None
+    if isinstance(e, ast.Compare) and len(e.ops) == 1:
+        a, b = _empty_value(e.left, sel), _empty_value(e.comparators[0], sel)
+        if a is None or b is None:
+            return None
+        x, y = a[1], b[1]
+        op = e.ops[0]
+        try:
+            r = {ast.Eq: x == y, ast.NotEq: x != y, ast.Lt: x < y, ast.LtE: x <= y, ast.Gt: x > y, ast.GtE: x >= y}.get(type(op))
+        except TypeError:
+            r = None
+        return None if r is None else ("bool", r)
+    return None
+
+
+def _is_sel(e, sel):
+    """e denotes a selection of the labeled rows: a name in `sel`, or `<array>[<mask name in sel>]`"""
+    if isinstance(e, ast.Name):
+        return e.id in sel
+    if isinstance(e, ast.Subscript):
+        return bool(names_in(e.slice) & sel) or _is_sel(e.value, sel)
+    if isinstance(e, ast.Call) and isinstance(e.func, ast.Attribute) and e.func.attr in ("ravel", "flatten", "copy", "astype"):
+        return _is_sel(e.func.value, sel)
+    return False
+
+
+def check_no_raise_on_empty(p, report):
+    from ..astutil import FuncTree
+    n = 0
+    for cname in ("SklearnRegressor", "SklearnNormalRegressor"):
+        ci = p.get_class(cname)
+        if ci is None:
+            raise AnalysisError(f"{cname} vanished")
+        for mn in ("_fit", "fit", "partial_fit"):
+            f = ci.methods.get(mn)
+            if f is None:
+                continue
+            # the labeled mask(s): results of is_labeled(...) and everything selected by them
+            sel = set()
+            for a in ast.walk(f.node):
+                if isinstance(a, ast.Assign) and isinstance(a.value, ast.Call) and (c01.callname(a.value) or "") in ("is_labeled",):
+                    sel |= {t.id for t in a.targets if isinstance(t, ast.Name)}
+            if not sel:
+                continue
+            for _ in range(3):
+                for a in ast.walk(f.node):
+                    if isinstance(a, ast.Assign) and isinstance(a.value, ast.Subscript) and names_in(a.value.slice) & sel:
+                        sel |= {t.id for t in a.targets if isinstance(t, ast.Name)}
+            tree = FuncTree(f.node)
+            for r in ast.walk(f.node):
+                if not isinstance(r, ast.Raise):
+                    continue
+                st = tree.stmt_of(r)
+                conds = []
+                for (s_, owner, field, idx) in tree.ancestors(st):
+                    if isinstance(owner, ast.If):
+                        conds.append((owner.test, field == "body"))
+                    elif isinstance(owner, (ast.Try,)) and field == "handlers":
+                        conds = None
+                        break
+                if not conds:
+                    continue
+                vals = []
+                for (t, pol) in conds:
+                    v = _empty_value(t, sel)
+                    vals.append(None if v is None else (bool(v[1]) == pol))
+                if not any(x is not None for x in vals):
+                    continue   # the guard does not look at the labeled selection
+                n += 1
+                reaches = all(x is not False for x in vals) and any(x is True for x in vals)
+                report.add("R15.13", f.qual, f"`{norm_stmt(st, 50)}` is not reached by an empty labeled selection",
+                           f"{f.file}:{r.lineno}", not reaches,
+                           detail="an enclosing test is false for the empty selection" if not reaches else
+                           f"the guard `{ast.unparse(conds[0][0])[:70]}` holds when no sample is labeled (sum of nothing is 0, "
+                           f"any() of nothing is False, all() of nothing is True): a cold-start fit with these arguments raises "
+                           f"instead of arming the documented fallback (mean 0 / std 1)")
+    report.analysed["raises_guarded_by_labeled_selection"] = n
+
+
 def check_empty_safe(p, report):
     regs = [ci for ci in p.classes.values() if "/tests/" not in ci.file and (
         ci.file.startswith("skactiveml/regressor/") or ci.name in ("SkactivemlRegressor", "ProbabilisticRegressor"))]
@@ -394,6 +506,24 @@ def run(p, report, tier):
                                "the labeled-sample branch needs more than one sample: a single label is ignored (NaN mean / std for a "
                                "zero-weight prior)")
     check_empty_safe(p, report)
+    # ---------------- round 6
+    report.rule("R15.12", "the fallback describes THIS fit: fit of the wrapped regressors reads no fitted attribute it has "
+                "not stored in the same call (an `estimator_` kept from an earlier successful fit answers instead of the "
+                "label mean when the current fit could not train it; shared with C13 R13.2)", floor=2)
+    from . import c13_fit as _c13_fit
+    ents15 = []
+    for cname in ("SklearnRegressor", "SklearnNormalRegressor"):
+        ci_ = p.get_class(cname)
+        fm_ = p.find_method(ci_, "fit") if ci_ else None
+        if fm_ is None:
+            raise AnalysisError(f"{cname}.fit vanished")
+        ents15.append((ci_, fm_))
+    _c13_fit.check_fit_recomputes(p, report, ents15, "R15.12", skip_attrs=("n_features_in_",))
+    report.rule("R15.13", "no `raise` in the fit path of the wrapped regressors is guarded by a predicate that is TRUE on "
+                "the empty selection of labeled samples (`np.sum(w[is_lbld]) == 0`, `not np.any(...)`, `np.all(...)`, "
+                "`len(...) == 0`) unless an enclosing test excludes the empty selection: a cold start must reach the "
+                "fallback (expected count today: 0 raising tests; the self-test keeps a positive example)", floor=0)
+    check_no_raise_on_empty(p, report)
     report.assumptions += ["finiteness and sign of standard deviations and agreement as numbers are not decided",
                            "scipy.stats frozen distributions implement mean/std/entropy/rvs coherently"]
 
